@@ -8,5 +8,7 @@ CONSTANTS
   MaxVals = 2
   HookDepth = 2
   OwnBytes = TRUE
+  Nodes = {}
+  ConnConfig = "live"
 INVARIANTS NoNestedReadOfCompressed
 CHECK_DEADLOCK FALSE
